@@ -180,6 +180,10 @@ func runC20(r *Run) {
 	r.Import("R1g/C01.", []string{"R4"}, func(r2 *Run) { detGlobalWrites(r2, sc, sc.S.HaqqFuncs()) })
 	runC20Controls(r)
 
+	// ---------- R4 ----------
+	r.Rule("R4", "FLOW.queries-before-the-first-block: the process-local fields that the tabled idempotent sites re-derive in BeginBlock (evm Keeper.eip155ChainID via WithChainID) are nil on a node restarted at a block boundary until its first BeginBlock. In the query scope (everything reachable from the methods implementing a QueryServer interface, which such a node answers immediately) the chain id handed to (*Keeper).EVMConfig — the value the CHAINID opcode and the signer see — never derives from such a field or its getter (directly or through same-package helpers); consensus code may use it (BeginBlock has run)")
+	checkRederivedFieldReaders(r, sc)
+
 	// ---------- R2 ----------
 	for _, id := range []string{"(*x/evm/keeper.Keeper).AddEVMExtensions", "(x/erc20/keeper.Keeper).RegisterERC20Extensions"} {
 		fn, ok := P.FnOK(id)
@@ -451,4 +455,131 @@ func detProcessLocalWrites(r *Run, sc *Scopes, onlyPkgs ...string) {
 		}
 		r.OK("R1", scope, "", fmt.Sprintf("%d consensus-reachable function(s) examined, %d write(s) to process-local memory, all tabled", nf, n))
 	}
+}
+
+// checkRederivedFieldReaders (C20 R4).
+func checkRederivedFieldReaders(r *Run, sc *Scopes) {
+	P := r.P
+	type fld struct{ st, f string }
+	fields := map[fld]bool{}
+	for id := range processLocalWriteExceptions {
+		fn, ok := P.FnOK(id)
+		if !ok {
+			continue
+		}
+		eachInstr(fn, func(in ssa.Instruction) {
+			if st, ok := in.(*ssa.Store); ok {
+				if sn, f, ok := fieldOfAddr(st.Addr); ok {
+					fields[fld{sn, f}] = true
+				}
+			}
+		})
+	}
+	if len(fields) == 0 {
+		r.OK("R4", "no-rederived-fields", "", "no tabled re-derivation site exists on this tree")
+		return
+	}
+	readsField := func(sl *Slice) bool {
+		for k := range fields {
+			if sl.HasField(k.st, k.f) {
+				return true
+			}
+		}
+		return false
+	}
+	// derives: the returned values of fn depend on a re-derived field (memoised, depth-bounded)
+	memo := map[*ssa.Function]int{} // 0 unknown, 1 in progress/no, 2 yes
+	var fnDerives func(fn *ssa.Function, depth int) bool
+	var valDerives func(v ssa.Value, depth int) bool
+	valDerives = func(v ssa.Value, depth int) bool {
+		sl := backSlice(v)
+		if readsField(sl) {
+			return true
+		}
+		if depth <= 0 {
+			return false
+		}
+		hit := false
+		sl.Any(func(x ssa.Value) bool {
+			c, ok := x.(*ssa.Call)
+			if !ok {
+				return false
+			}
+			ci := callInfo(c)
+			if ci.Static != nil && ci.Static.Blocks != nil && isHaqqPath(fnPkgPath(ci.Static)) && fnDerives(ci.Static, depth-1) {
+				hit = true
+				return true
+			}
+			return false
+		})
+		return hit
+	}
+	fnDerives = func(fn *ssa.Function, depth int) bool {
+		if m := memo[fn]; m != 0 {
+			return m == 2
+		}
+		memo[fn] = 1
+		res := false
+		eachInstr(fn, func(in ssa.Instruction) {
+			if ret, ok := in.(*ssa.Return); ok && !res {
+				for _, o := range retOperands(ret) {
+					if valDerives(o, depth) {
+						res = true
+					}
+				}
+			}
+		})
+		if res {
+			memo[fn] = 2
+		}
+		return res
+	}
+	// query scope Q: Haqq functions reachable from the methods with which Haqq types implement a QueryServer interface
+	qroots := map[*ssa.Function]string{}
+	for _, sp := range P.SSA.AllPackages() {
+		tn, ok := sp.Pkg.Scope().Lookup("QueryServer").(*types.TypeName)
+		if !ok {
+			continue
+		}
+		I, ok := tn.Type().Underlying().(*types.Interface)
+		if !ok || I.NumMethods() == 0 {
+			continue
+		}
+		for _, t := range sc.G.concrete {
+			if !types.Implements(t, I) {
+				continue
+			}
+			ms := P.SSA.MethodSets.MethodSet(t)
+			for i := 0; i < I.NumMethods(); i++ {
+				if sel := ms.Lookup(I.Method(i).Pkg(), I.Method(i).Name()); sel != nil {
+					if fn := P.SSA.MethodValue(sel); fn != nil && fn.Blocks != nil && isHaqqPath(fnPkgPath(fn)) {
+						qroots[fn] = "QueryServer of " + strings.TrimPrefix(sp.Pkg.Path(), haqqMod+"/")
+					}
+				}
+			}
+		}
+	}
+	Q := sc.G.Reach(qroots, nil)
+	r.Count("R4 query-server methods (roots of the query scope)", len(qroots))
+	n := 0
+	for _, fn := range Q.HaqqFuncs() {
+		if isTestSupport(P, fn) || isGeneratedFile(P.FileOf(fnPos(fn))) {
+			continue
+		}
+		eachCall(fn, func(ci CallInfo) {
+			if ci.Name != "EVMConfig" || ci.Recv != "Keeper" || !pathHasSuffix(ci.PkgPath, "x/evm/keeper") {
+				return
+			}
+			args := callArgs(ci.Instr)
+			if len(args) == 0 {
+				return
+			}
+			chainArg := args[len(args)-1]
+			n++
+			r.Check(!valDerives(chainArg, 3), "R4", fnID(fn)+"#EVMConfig-chain-id", P.Pos(instrPos(ci.Instr)), "chain id comes from the request or ctx.ChainID()",
+				"a function reachable from a gRPC query server builds its EVM configuration from the keeper's in-memory chain id, which is nil on a node restarted at a block boundary until its first BeginBlock: the same query is answered differently (nil dereference / chain id 0) by a restarted node and by one that kept running", Q.Chain(fn)...)
+		})
+	}
+	r.Count("R4 EVMConfig calls in query scope", n)
+	r.Floor("R4", "EVMConfig calls in query scope", n, 4)
 }
